@@ -17,6 +17,11 @@ PRELUDE = '''#include "vrt.h"
 static int M(long id) { MARK(id); return 1; }
 static int Z(long id) { MARK(id); return 0; }
 static long V(long id, long v) { MARK(id); return v; }
+static double VD(long id, double v) { MARK(id); return v; }
+static float VF(long id, float v) { MARK(id); return v; }
+static long double VLD(long id, long double v) { MARK(id); return v; }
+static char VC(long id, char v) { MARK(id); return v; }
+static char *VP(long id, long v) { MARK(id); return (char *)v; }
 '''
 
 CTYPES = [('char', 8, True), ('unsigned char', 8, False), ('short', 16, True), ('unsigned short', 16, False), ('int', 32, True), ('unsigned int', 32, False),
@@ -48,6 +53,11 @@ class G:
         r = self.rng
         x = r.random()
         if d <= 0 or x < 0.3:
+            if x < 0.1:
+                # controlling operands of every scalar type (the two sides of && / || / ?: need not have the same type)
+                self.feats.add('typed-operand')
+                return r.choice(['VD(%d, 0.0)', 'VD(%d, 0.5)', 'VD(%d, -0.0)', 'V(%d, 1L << 32)', 'V(%d, 0)', 'VF(%d, 0.0f)', 'VF(%d, 1e-30f)', 'VLD(%d, 0.25L)', 'VLD(%d, 0.0L)',
+                                 'VC(%d, 0)', 'VC(%d, -128)', '(VP(%d, 0) || 0)', '(VP(%d, 1L << 40) && 1)', '(0 || VP(%d, 1L << 40))', '!VD(%d, 0.5)', '!V(%d, 1L << 32)', '(unsigned char)V(%d, 256)']) % self.m()
             return r.choice(['M(%d)', 'Z(%d)', 'V(%d, 3) > 2', 'V(%d, -1) < 0', '!Z(%d)']) % self.m()
         if x < 0.5:
             self.feats.add('&&')
